@@ -870,7 +870,7 @@ def fallthrough_profile(f):
             if nxt is None:
                 break
             if nxt.get('case'):
-                if has_events:
+                if has_events and nxt['case'][0] != cs[0]:
                     out.append('%s->%s' % (cs[0], nxt['case'][0]))
                 break
             cur = nxt
